@@ -112,6 +112,8 @@ def state_fn(conf, hist, G, M):
     nodes, times, P, PP = oracles.presence_ctx(G, conf)
     o = U.FLAVOURS[conf['flavour']]['origin']
     rng = list(range(o - 1, o + conf['w'] + 1))
+    if conf['w'] > 6:
+        rng = rng[::2]        # wide-window universe (LONG): every second instant as a window bound
     trip = []
     before = observe.snapshot(G, conf, times)
     evals = 0
@@ -154,11 +156,11 @@ def state_fn(conf, hist, G, M):
 
 
 def run(tier, seed):
-    which = ('U1', 'U2', 'TWO', 'U3')
-    params = {'u1_depth': 2, 'u2_depth': 1, 'two_depth': 2, 'u3_depth': 1} if tier == 'quick' else \
-        {'u1_depth': 3, 'two_depth': 3, 'u2_depth': 2, 'u3_depth': 1}
+    which = ('U0', 'U1', 'U2', 'TWO', 'U3', 'LONG', 'UC')
+    params = {'u1_depth': 2, 'u2_depth': 1, 'two_depth': 2, 'u3_depth': 1, 'long_depth': 3, 'uc_depth': 4} if tier == 'quick' else \
+        {'u1_depth': 3, 'two_depth': 3, 'u2_depth': 2, 'u3_depth': 1, 'long_depth': 4, 'uc_depth': 5}
     return base.run_state_property(
-        PROP, LEVEL, state_fn, tier, seed, which=which, params=params,
+        PROP, LEVEL, state_fn, tier, seed, which=which, params=params, reduced=base.REDUCED_TINY,
         vacuity={'windows_cutting_a_run': 100, 'states_with_attrs': 5}, sample_fn=base.default_samples,
         rule='BFS over add_*/add_node histories, both classes, removal enabled; every distinct state x every window a<=b over '
              'o-1..o+w (and the one-argument form) : class, has_interaction(H) == clipped has_interaction(G) on all pairs x instants, '
